@@ -1,0 +1,42 @@
+//go:build verif
+
+package proxy
+
+import (
+	"fmt"
+	"strings"
+
+	"github.com/datastax/cql-proxy/proxycore"
+	"github.com/datastax/go-cassandra-native-protocol/message"
+)
+
+func verifTrace(kind string, r *request, obj interface{}, a, b, c int64, s string) {
+	proxycore.VerifTraceRecord(kind, r, obj, a, b, c, s)
+}
+
+func verifPlan(r *request) string {
+	return strings.Join(proxycore.VerifPlanKeys(r.qp), ",")
+}
+
+func verifHostKey(h *proxycore.Host) string {
+	if h == nil {
+		return ""
+	}
+	return h.Key()
+}
+
+// verifErrorFields renders what the retry policy may look at: code,received,blockFor,dataPresent,writeType.
+func verifErrorFields(m message.Error) string {
+	code := int64(m.GetErrorCode())
+	switch e := m.(type) {
+	case *message.ReadTimeout:
+		return fmt.Sprintf("%d,%d,%d,%t,", code, e.Received, e.BlockFor, e.DataPresent)
+	case *message.WriteTimeout:
+		return fmt.Sprintf("%d,%d,%d,false,%s", code, e.Received, e.BlockFor, e.WriteType)
+	case *message.ReadFailure:
+		return fmt.Sprintf("%d,%d,%d,%t,", code, e.Received, e.BlockFor, e.DataPresent)
+	case *message.WriteFailure:
+		return fmt.Sprintf("%d,%d,%d,false,%s", code, e.Received, e.BlockFor, e.WriteType)
+	}
+	return fmt.Sprintf("%d,0,0,false,", code)
+}
